@@ -291,6 +291,12 @@ func runTeardown(t *testing.T, monitor bool, fault string, flood int, busy time.
 		case "FLink":
 			watchC <- netstate.LinkDown
 			faultAt = vNow()
+		case "FLinkClosed":
+			// a link event is still buffered when the watcher shuts its channels (link down racing with the end of
+			// watching): the event counts, the closed channel is harmless
+			watchC <- netstate.LinkDown
+			close(watchC)
+			faultAt = vNow()
 		case "FWatchClosed":
 			close(watchC)
 			faultAt = vNow()
@@ -374,7 +380,7 @@ func TestVerifC10TD(t *testing.T) {
 	if verifh.Thorough() {
 		floods = []int{0, 1, 5, 15, 16, 17, 18, 40, 100}
 	}
-	faults := []string{"FReadSyscall", "FReadPerm", "FReadOther", "FTimeouts5", "FWriteSyscall", "FWrite2Syscall", "FWritePendSyscall", "FWritePerm", "FWriteOther", "FBuildFail", "FLink", "FWatchClosed"}
+	faults := []string{"FReadSyscall", "FReadPerm", "FReadOther", "FTimeouts5", "FWriteSyscall", "FWrite2Syscall", "FWritePendSyscall", "FWritePerm", "FWriteOther", "FBuildFail", "FLink", "FLinkClosed", "FWatchClosed"}
 	for _, mon := range []bool{false, true} {
 		for _, f := range faults {
 			if mon && (f == "FBuildFail" || len(f) > 6 && f[:6] == "FWrite") {
@@ -396,7 +402,7 @@ func TestVerifC10TD(t *testing.T) {
 				slack := int64(busy)
 				out.Emit(verifh.Case{
 					ID: id,
-					Coq: "(CTd " + verifh.App("mkTd", verifh.B(mon), strings.Replace(strings.Replace(f, "FWrite2", "FWrite", 1), "FWritePend", "FWrite", 1), verifh.Z(int64(fl)), res.outcome, verifh.Z(res.delay), verifh.Z(slack),
+					Coq: "(CTd " + verifh.App("mkTd", verifh.B(mon), strings.Replace(strings.Replace(strings.Replace(f, "FWrite2", "FWrite", 1), "FWritePend", "FWrite", 1), "FLinkClosed", "FLink", 1), verifh.Z(int64(fl)), res.outcome, verifh.Z(res.delay), verifh.Z(slack),
 						verifh.Z(int64(res.ioAfter)), verifh.B(res.canary), verifh.B(res.leak)) + ")",
 					Input:    map[string]any{"monitor": mon, "fault": f, "flood": fl},
 					Observed: map[string]any{"outcome": res.outcome, "delay_ns": res.delay, "io_after": res.ioAfter, "canary": res.canary, "leak": res.leak},
